@@ -41,3 +41,46 @@ MODEL_FMAX_R(llvm_x86_avx512_max_pd_512, v8f64, 8)
 #ifdef NEED_llvm_x86_avx512_min_pd_512
 MODEL_FMIN_R(llvm_x86_avx512_min_pd_512, v8f64, 8)
 #endif
+/* ROUNDPS/ROUNDPD and VRNDSCALE with scale 0: imm[1:0] = 0 nearest-even, 1 toward -inf, 2 toward +inf, 3 toward zero; imm[2] = use MXCSR.RC
+ * (assumed round-to-nearest-even, the default); imm[3] only suppresses the precision exception */
+#define LL_ROUNDIMM_f32(x, imm) ((((imm) & 4) || ((imm) & 3) == 0) ? nearbyintf(x) : ((imm) & 3) == 1 ? floorf(x) : ((imm) & 3) == 2 ? ceilf(x) : truncf(x))
+#define LL_ROUNDIMM_f64(x, imm) ((((imm) & 4) || ((imm) & 3) == 0) ? nearbyint(x) : ((imm) & 3) == 1 ? floor(x) : ((imm) & 3) == 2 ? ceil(x) : trunc(x))
+#define MODEL_ROUND(name, VT, N, T) static inline VT name(VT a, u32 imm) { VT r; for (int i = 0; i < N; ++i) r.e[i] = LL_ROUNDIMM_##T(a.e[i], imm); return r; }
+#ifdef NEED_llvm_x86_sse41_round_ps
+MODEL_ROUND(llvm_x86_sse41_round_ps, v4f32, 4, f32)
+#endif
+#ifdef NEED_llvm_x86_sse41_round_pd
+MODEL_ROUND(llvm_x86_sse41_round_pd, v2f64, 2, f64)
+#endif
+#ifdef NEED_llvm_x86_avx_round_ps_256
+MODEL_ROUND(llvm_x86_avx_round_ps_256, v8f32, 8, f32)
+#endif
+#ifdef NEED_llvm_x86_avx_round_pd_256
+MODEL_ROUND(llvm_x86_avx_round_pd_256, v4f64, 4, f64)
+#endif
+#ifdef NEED_llvm_x86_avx512_mask_rndscale_ps_512
+static inline v16f32 llvm_x86_avx512_mask_rndscale_ps_512(v16f32 a, u32 imm, v16f32 src, u16 k, u32 sae) {
+  __CPROVER_assert((imm >> 4) == 0, "model: VRNDSCALE used with scale 0 only");
+  v16f32 r; for (int i = 0; i < 16; ++i) r.e[i] = ((k >> i) & 1) ? LL_ROUNDIMM_f32(a.e[i], imm) : src.e[i]; return r; }
+#endif
+#ifdef NEED_llvm_x86_avx512_mask_rndscale_pd_512
+static inline v8f64 llvm_x86_avx512_mask_rndscale_pd_512(v8f64 a, u32 imm, v8f64 src, u8 k, u32 sae) {
+  __CPROVER_assert((imm >> 4) == 0, "model: VRNDSCALE used with scale 0 only");
+  v8f64 r; for (int i = 0; i < 8; ++i) r.e[i] = ((k >> i) & 1) ? LL_ROUNDIMM_f64(a.e[i], imm) : src.e[i]; return r; }
+#endif
+/* truncating / rounding conversions to int32: NaN and out-of-range give the "integer indefinite" 0x80000000 */
+#define LL_CVTT32(x) (((x) == (x) && (x) > -2147483904.0 && (x) < 2147483648.0) ? (u32)(s32)(x) : (u32)0x80000000u)
+#define LL_CVTR32_f32(x) LL_CVTT32(nearbyintf(x))
+#define LL_CVTR32_f64(x) LL_CVTT32(nearbyint(x))
+#ifdef NEED_llvm_x86_sse2_cvttps2dq
+static inline v4u32 llvm_x86_sse2_cvttps2dq(v4f32 a) { v4u32 r; for (int i = 0; i < 4; ++i) r.e[i] = LL_CVTT32(a.e[i]); return r; }
+#endif
+#ifdef NEED_llvm_x86_sse2_cvtps2dq
+static inline v4u32 llvm_x86_sse2_cvtps2dq(v4f32 a) { v4u32 r; for (int i = 0; i < 4; ++i) r.e[i] = LL_CVTR32_f32(a.e[i]); return r; }
+#endif
+#ifdef NEED_llvm_x86_avx_cvtt_ps2dq_256
+static inline v8u32 llvm_x86_avx_cvtt_ps2dq_256(v8f32 a) { v8u32 r; for (int i = 0; i < 8; ++i) r.e[i] = LL_CVTT32(a.e[i]); return r; }
+#endif
+#ifdef NEED_llvm_x86_avx_cvt_ps2dq_256
+static inline v8u32 llvm_x86_avx_cvt_ps2dq_256(v8f32 a) { v8u32 r; for (int i = 0; i < 8; ++i) r.e[i] = LL_CVTR32_f32(a.e[i]); return r; }
+#endif
